@@ -395,7 +395,8 @@ P_C07(x) == (HasSeg /\ x.pf.forest /\ x.pf.seg /\ ~IsPrim(x.c) /\ ~IsSwitch(x.c)
     /\ (x.ok /\ x.c[1] = KPaint) => \A q \in Pix \ PaintStroke(x.c) : x.post.seg[q] = x.pre.seg[q]
 \* (the primitives that write pixels - AddNode, UpdateNodeSeg - notify the annotators themselves: judged under their
 \*  documented preconditions)
-P_C08(x) == (HasSeg /\ PFValid(x.pf) /\ x.ok /\ ~IsSwitch(x.c)
+\* (enabling WITH recomputation is the bulk path of the same measurements: judged too)
+P_C08(x) == (HasSeg /\ PFValid(x.pf) /\ x.ok /\ (IsSwitch(x.c) => (x.c[1] = KEnable /\ x.c[3] = 1))
              /\ (IsPrim(x.c) => (x.c[1] \in {KPAddNode, KPUpdSeg} /\ PrimPre(x.pre, x.c))))
             => (AreaOK(x.post) /\ PosOK(x.post) /\ ShapeOK(x.post))
 P_C09(x) == (HasSeg /\ PFValid(x.pf) /\ x.ok /\ ~IsPrim(x.c) /\ (IsSwitch(x.c) => x.c[1] = KEnable /\ x.c[3] = 1)) => IoUOK(x.post)
